@@ -313,6 +313,8 @@ def check_c12(c, result):
 # ------------------------------------------------------------------ C13 / C14
 def check_c13(c, result):
     qs = [q for _, q in gen_queries(c, N[c.tier]['C13'] * 2, npreds=None) if q['preds'] and querygen.has_call(q['where'])][:N[c.tier]['C13']]
+    # two-kind queries whose aliases contain one another (what substring-based resolution trips on)
+    qs += [q for _, q in gen_queries(c, N[c.tier]['C13'] * 2, prefix='col', nkinds=2, npreds=2, collide=True) if querygen.has_call(q['where'])][:N[c.tier]['C13'] // 2]
     tq, groups = [], []
     for i, q in enumerate(qs):
         variants = {'orig': q, 'inline': querygen.inline_calls(q), 'formals': querygen.rename_formals(q, c.rng)}
@@ -494,22 +496,40 @@ def check_c16(c, result):
         poison.append(('d%d' % i, 'FROM %s AS x SELECT x' % k))
     poison += [('bad0', 'FROM WHERE'), ('bad1', 'FROM method_declaration AS m WHERE m.nope() SELECT m'), ('bad2', 'SELECT'),
                ('bad3', 'FROM method_declaration AS m WHERE zz.getName() == "a" SELECT m')]
+    # confusable neighbours: the same WHERE / SELECT text under another FROM (an alias dropped, or the
+    # same alias bound to another kind) — what a cache keyed by text or by alias would mix up
+    neigh = []
+    for qid, q in qs[:max(8, len(qs) // 2)]:
+        toks = querygen.query_tokens(q)
+        wi = toks.index('WHERE') if 'WHERE' in toks else toks.index('SELECT')
+        fi = toks.index('FROM')
+        tail = toks[wi:]
+        if len(q['frm']) == 2:
+            k0, a0 = q['frm'][0]
+            neigh.append((qid + '_drop', ' '.join(toks[:fi] + ['FROM', k0, 'AS', a0] + tail)))
+        k0, a0 = q['frm'][0]
+        others = [k for k in kinds if k != k0] or ['class_declaration']
+        swapped = [(c.rng.choice(others), a0)] + q['frm'][1:]
+        frm = []
+        for i, (k, a) in enumerate(swapped):
+            frm += ([','] if i else []) + [k, 'AS', a]
+        neigh.append((qid + '_rebind', ' '.join(toks[:fi] + ['FROM'] + frm + tail)))
     hist = []
     nrep = 3
     for rep in range(nrep):
-        order = base + poison
+        order = base + poison + neigh
         c.rng.shuffle(order)
         hist += [('%s#%d' % (qid, rep), t) for qid, t in order]
     res, ip, graph_after = c.run(hist)
     # stand-alone: every distinct query in a fresh process of its own batch (fresh graph)
-    alone_q = base + poison
+    alone_q = base + poison + neigh
     res1, ip1, _ = c.run(alone_q)
     model = c.model(alone_q)
     c.tie(alone_q, res1, ip1, model, result)
     texts = dict(alone_q)
-    # the answer in a fresh single-query session, for the ones that matter most
+    # the stand-alone answer: every query in a fresh process of its own (nothing can leak into it)
     fresh = {}
-    for qid, t in poison[:8]:
+    for qid, t in alone_q:
         r, _, _ = c.run([(qid, t)])
         fresh[qid] = r.get(qid)
     kq = {qid: len(q['frm']) for qid, q in qs}
@@ -521,7 +541,7 @@ def check_c16(c, result):
             return (oc,)
         try:
             rs, rows = qrun.parse_result(payload)
-            k = kq.get(qid.split('#')[0], 1)
+            k = (len(rs) // len(rows)) if rows else 1
             masked = [[re.sub(r'0x[0-9a-f]+', '0xPTR', json.dumps(v, sort_keys=True)) for v in row] for row in rows]
             return (oc, Counter((tuple(rs[k * i:k * i + k]), tuple(masked[i])) for i in range(len(rows))))
         except Exception as e:
@@ -624,6 +644,36 @@ def unusual_queries():
             '', ' ', 'FROM', 'SELECT x', 'FROM a AS b SELECT', 'FROM a AS b WHERE SELECT c', '\x00', '"', 'FROM a AS b SELECT "\\', 'é FROM a AS b SELECT b']
 
 
+def predicate_graphs(rng, n):
+    """queries whose predicates call one another in body and in argument position, cycles included"""
+    out = []
+    names = ['p', 'q', 'r', 's']
+    for _ in range(n):
+        k = rng.randint(1, 4)
+        decls = []
+        for i in range(k):
+            def call(depth=0):
+                f = rng.choice(names[:k])
+                if depth < 2 and rng.random() < 0.4:
+                    return '%s(%s)' % (f, call(depth + 1))     # a call in argument position
+                return '%s(m)' % f
+            r = rng.random()
+            if r < 0.3:
+                body = 'm.getName() == "x"'
+            elif r < 0.6:
+                body = call()
+            elif r < 0.8:
+                body = '%s && m.getName() != "y"' % call()
+            else:
+                body = '!(%s) || %s' % (call(), call())
+            decls.append('predicate %s(method_declaration m) { %s }' % (names[i], body))
+        out.append('%s FROM method_declaration AS md WHERE %s(md) SELECT md.getName()' % (' '.join(decls), names[0]))
+    # a long chain of distinct predicates (deeper than any fixed expansion limit)
+    chain = ' '.join('predicate c%d(method_declaration m) { c%d(m) }' % (i, i + 1) for i in range(24)) + ' predicate c24(method_declaration m) { m.getName() == "x" }'
+    out.append(chain + ' FROM method_declaration AS md WHERE c0(md) SELECT md')
+    return out
+
+
 def check_c10_c11(c, result):
     pid = c.pid
     rng = c.rng
@@ -636,6 +686,7 @@ def check_c10_c11(c, result):
             cases.append(querygen.render(mutate_tokens(toks, rng), rng, rng.choice(['plain', 'plain', 'wild'])))
     if pid == 'C10':
         cases += unusual_queries()
+        cases += predicate_graphs(rng, 25 if c.tier == 'quick' else 400)
         for _ in range(N[c.tier][pid] // 6):
             n = rng.choice([1, 2, 5, 12, 40])
             r = rng.random()
